@@ -438,14 +438,55 @@ def walk_step_rules(chk, p, ps):
             if st["k"] == "assign":
                 after |= {pj["l"] for pj in place_reads(st["rv"])}
         after |= {pj["l"] for pj in term_reads(ps.blocks[bb]["term"])}
-    sfx = [l for l in cand if ps.local_ty(l).startswith("core::ops::range::RangeFrom<usize>") and l in after and any(r["state"][l] != ("in", l) for r in rows0)]
+    # the suffix position: kept as a range `start..` or as the start index itself
+    sfx = [l for l in cand if (ps.local_ty(l).startswith("core::ops::range::RangeFrom<usize>") or ps.local_ty(l) == "usize") and l in after and any(r["state"][l] != ("in", l) for r in rows0)]
     sfx = sfx[0] if len(sfx) == 1 else None
     if not chk.require(R, "d|state", None not in (wl, s_l, lo, hi, sfx), where(ps), "state variables not identified (wildcard=%s s=%s lo=%s hi=%s suffix=%s)" % (wl, s_l, lo, hi, sfx)):
         return
     IN = lambda l: ("in", l)
     dot = lambda t: _isc(t, "str::rfind") and t[2][0] == IN(s_l) and t[2][1] == ("const", 46)
-    at_label = lambda t: _isc(t, "after_or_all") and dot(t[2][0])
-    one_further = lambda t: isinstance(t, tuple) and t and t[0] == "agg" and t[1].endswith("RangeFrom") and _has(t, lambda x: _isc(x, "str::len") and x[2][0] == IN(s_l)) and _has(t, lambda x: x == ("const", 1))
+    from . import normal, summary
+    Nn = normal.Normalizer(p, summary.Summaries(p))
+
+    def start_of(t):
+        """the start index of a suffix position: of `start..` it is `start`; selections are mapped branch by branch"""
+        if isinstance(t, tuple) and len(t) == 4 and t[0] == "agg" and t[1].endswith("RangeFrom"):
+            return dict(t[3]).get("start")
+        if isinstance(t, tuple) and t and t[0] == "gamma":
+            return ("gamma", t[1], tuple((l, start_of(v)) for l, v in t[2]))
+        return t
+
+    def plus_one(v, x):
+        if isinstance(v, tuple) and len(v) == 3 and v[0] == "field" and v[2] == "0":
+            v = v[1]
+        return isinstance(v, tuple) and len(v) == 4 and v[0] == "binop" and v[1].startswith("Add") and ((v[2] == x and v[3] == ("const", 1)) or (v[3] == x and v[2] == ("const", 1)))
+
+    def label_start(t, dot_pred, conds=()):
+        """t = the index just after the last '.' of the walked string, or 0 when it has none — as a selection on the
+        presence of that dot, or already decided by the tests of the row it appears in; private helpers looked through"""
+        t = start_of(Nn.inline(t))
+        for c_, l_, sb_ in conds:
+            t = flow._resolve_nested(t, c_, l_)
+        t = flow.simplify_term(t)
+        if isinstance(t, tuple) and t and t[0] == "gamma":
+            seen = set()
+            for l_, v in t[2]:
+                pt = flow.presence_test(t[1], l_)
+                if pt is None or pt[1] is None or not dot_pred(pt[0]):
+                    return False
+                if not (plus_one(v, ("payload", pt[0])) if pt[1] else v == ("const", 0)):
+                    return False
+                seen.add(pt[1])
+            return seen == {True, False}
+        # decided by the row: the dot is there (index + 1) or not (0)
+        for c_, l_, sb_ in conds:
+            pt = flow.presence_test(c_, l_)
+            if pt is not None and pt[1] is not None and dot_pred(pt[0]):
+                return plus_one(t, ("payload", pt[0])) if pt[1] else t == ("const", 0)
+        return False
+
+    at_label = lambda t, conds=(): label_start(t, dot, conds)
+    one_further = lambda t: plus_one(start_of(Nn.inline(t)), ("call", "core::str::<impl str>::len", (IN(s_l),), 0)) or (lambda v: isinstance(v, tuple) and ((len(v) == 3 and v[0] == "field" and v[2] == "0" and isinstance(v[1], tuple) and v[1][:1] == ("binop",) and v[1][1].startswith("Add") and ("const", 1) in v[1][2:4] and any(_isc(x, "str::len") and x[2][0] == IN(s_l) for x in v[1][2:4])) or (len(v) == 4 and v[0] == "binop" and v[1].startswith("Add") and ("const", 1) in v[2:4] and any(_isc(x, "str::len") and x[2][0] == IN(s_l) for x in v[2:4]))))(start_of(Nn.inline(t)))
     nt_term = lambda t: isinstance(t, tuple) and t and t[0] == "binop" and t[1] == "Eq" and _has(t, cn("CHILDREN_BITS_NODE_TYPE"))
     is_normal = lambda t: nt_term(t) and _has(t, cn("NODE_TYPE_NORMAL"))
     is_exc = lambda t: nt_term(t) and _has(t, cn("NODE_TYPE_EXCEPTION"))
@@ -460,7 +501,7 @@ def walk_step_rules(chk, p, ps):
             elif flow.tests_presence_of(t, lambda x: _isc(x, "ListProvider::find")):
                 d["found"] = flow.asserts_ok(t, l, lambda x: _isc(x, "ListProvider::find"))
                 f = [x for x in flow._subjects(flow.presence_test(t, l)[0], True) if _isc(x, "ListProvider::find")][0]
-                d["find_args_ok"] = len(f[2]) == 4 and _isc(f[2][1], "Index::index") and f[2][1][2][0] == IN(s_l) and at_label(f[2][1][2][1]) and f[2][2] == IN(lo) and f[2][3] == IN(hi)
+                d["find_args_ok"] = len(f[2]) == 4 and _isc(f[2][1], "Index::index") and f[2][1][2][0] == IN(s_l) and at_label(f[2][1][2][1], r["conds"]) and f[2][2] == IN(lo) and f[2][3] == IN(hi)
             elif is_normal(t):
                 d["normal"] = flow.lab_true(l)
             elif is_exc(t):
@@ -481,10 +522,10 @@ def walk_step_rules(chk, p, ps):
             if not (r["kind"] == "exit" and one_further(sv)):
                 bad["d4"].append(desc)
         elif c["normal"] and c["found"]:
-            if not at_label(sv):
+            if not at_label(sv, r["conds"]):
                 bad["d3"].append(desc)
         elif c["wild"]:
-            if not at_label(sv):
+            if not at_label(sv, r["conds"]):
                 bad["d2"].append(desc)
         else:
             if sv != IN(sfx):
@@ -517,16 +558,50 @@ def walk_step_rules(chk, p, ps):
     if chk.require(R, "d|preheader", len(pre) == 1, site, "loop preheader not unique"):
         pb = pre[0]
         init = {l: flow.simplify_term(T.place(l, (), pb, "t")) for l in (lo, hi, s_l, sfx, wl)}
-        ok = init[lo] == ("const", 0) and cn("NUM_TLD")(init[hi]) and init[s_l] == ("param", 2) and init[wl] == ("const", 0) and init[sfx][0] == "agg" and _has(init[sfx], lambda x: _isc(x, "str::len") and x[2][0] == ("param", 2))
+        i_sfx = start_of(init[sfx])
+        ok = init[lo] == ("const", 0) and cn("NUM_TLD")(init[hi]) and init[s_l] == ("param", 2) and init[wl] == ("const", 0) and _isc(i_sfx, "str::len") and i_sfx[2][0] == ("param", 2)
         chk.ob(R, "d|initial-state", ok, where(ps, pb), "lo=%s hi=%s s=%s wildcard=%s suffix=%s" % tuple(flow.term_str(init[k])[:40] for k in (lo, hi, s_l, wl, sfx)))
-    # after the loop: suffix.start == len(domain)  =>  suffix = after_or_all(rfind(domain, '.'))
-    star = False
-    for bb, t in ps.calls():
-        if names.call_is(t, "after_or_all") and bb not in blocks:
-            a = flow.simplify_term(T.operand(t["args"][0], bb, "t"))
-            if _isc(a, "str::rfind") and a[2][0] == ("param", 2) and a[2][1] == ("const", 46):
-                conds = flow.conditions(p, ps, bb, T)
-                for sb, l, c in conds:
-                    if c[0] == "binop" and c[1] == "Eq" and _has(c, lambda x: _isc(x, "str::len") and x[2][0] == ("param", 2)) and _has(c, lambda x: isinstance(x, tuple) and len(x) == 3 and x[0] == "field" and x[2] == "start") and flow.lab_true(l):
-                        star = True
+    # after the loop: suffix == len(domain)  =>  suffix = the start of the last label of the whole domain; nothing else writes it
+    from . import intervals
+    iv = intervals.Intervals(p, ps)
+    du = flow.DefUse(ps)
+    dot_dom = lambda t: _isc(t, "str::rfind") and t[2][0] == ("param", 2) and t[2][1] == ("const", 46)
+
+    def traces_to_suffix(op):
+        pl = flow.op_place(op)
+        if not pl or pl[1] not in ((), ("start",)):
+            return False
+        for l_ in du.trace_copy(pl[0]):
+            if l_ == sfx:
+                return True
+            d_ = du.single_def(l_)
+            if d_ and d_[0] == "assign" and d_[4]["k"] == "use":
+                q = flow.op_place(d_[4]["op"])
+                if q and q[0] == sfx and q[1] in ((), ("start",)):
+                    return True
+        return False
+
+    def is_domain_len(op, bb):
+        v = flow.simplify_term(T.operand(op, bb, "t"))
+        return _isc(v, "str::len") and v[2][0] == ("param", 2)
+
+    post_defs = []
+    for bb in sorted(post_blocks):
+        blk = ps.blocks[bb]
+        for i, s in enumerate(blk["stmts"]):
+            if s["k"] == "assign" and flow.norm_place(s["place"])[0] == sfx:
+                post_defs.append((bb, flow.simplify_term(T._rvalue(s["rv"], bb, i, 0))))
+        t = blk["term"]
+        if t and t["k"] == "call" and flow.norm_place(t["dest"])[0] == sfx:
+            post_defs.append((bb, flow.simplify_term(T._call(t, bb, 0))))
+    star = len(post_defs) == 1
+    for bb, v in post_defs:
+        guarded = False
+        for sb, l, c_ in flow.conditions(p, ps, bb, T):
+            tm = ps.term(sb)
+            pl = flow.op_place(tm["op"]) if tm and tm["k"] == "switch" else None
+            cd = iv.cmp_defs.get(pl[0]) if pl and pl[1] == () else None
+            if cd and cd[0] in ("Eq", "Ne") and ((traces_to_suffix(cd[1]) and is_domain_len(cd[2], sb)) or (traces_to_suffix(cd[2]) and is_domain_len(cd[1], sb))):
+                guarded = flow.lab_true(l) if cd[0] == "Eq" else flow.lab_false(l)
+        star = star and guarded and label_start(v, dot_dom)
     chk.ob(R, "d|implicit-star-rule", star, site, "when no rule matched (suffix.start == len(domain)) the suffix becomes the last label: %s" % star)
